@@ -48,22 +48,29 @@ def import_backend():
 # fake real-time clock (replaces the name `time` inside time_keeper.py)
 # --------------------------------------------------------------------------
 class FakeTime:
-    """`time.time()` as seen by SimulatedTimeKeeper. The harness moves `now` forward
-    by the scripted outside time right before it enters a backend method."""
+    """`time.time()` as seen by SimulatedTimeKeeper: a genuine monotone real-time source. Reading it has no
+    side effect. The harness moves `now` forward by scripted amounts BETWEEN backend calls (`spend`); what a
+    call charges to the simulated clock is whatever the implementation computes from its own last-exit mark.
+    `mark` is the harness's own record of the real time at which the last call that ends with
+    time_keeper.mark_exit() (start/resume/pause/stop/fetch, start_of_time) returned; `now - mark` is the real
+    time that has passed outside the backend since then, i.e. what the next such call must charge, once."""
 
     def __init__(self, start=1024.0):
+        self.start = float(start)
         self.now = float(start)
-        self.last = float(start)   # value returned by the most recent call = last mark_exit
+        self.mark = float(start)
 
     def time(self):
-        self.last = self.now
         return self.now
 
     def spend(self, dt):
-        """Real time passes outside the backend. Returns what
-        real_time_since_last_recent_exit() will compute at the next entry."""
         self.now = self.now + dt
-        return self.now - self.last
+
+    def marked(self):
+        self.mark = self.now
+
+    def outside(self):
+        return self.now - self.mark
 
 
 # --------------------------------------------------------------------------
@@ -177,8 +184,9 @@ def make_backend(spec, fake, dt_source, log):
 
     class RecordingBackend(m["UserBlackboxBackend"]):
         def _rec(self, op, fn):
-            dt = fake.spend(dt_source(op["kind"]))
-            op["dt"] = dt
+            fake.spend(dt_source(op["kind"]))
+            op["real"] = fake.now - fake.start
+            op["dt"] = fake.outside()      # real time outside the backend since the last exit mark
             try:
                 out = fn()
             except Exception as e:  # recorded, then re-raised
@@ -186,6 +194,7 @@ def make_backend(spec, fake, dt_source, log):
                 op["errmsg"] = str(e)[:200]
                 log.append(op)
                 raise
+            fake.marked()                  # these five methods end with time_keeper.mark_exit()
             op["clock"] = self.time_keeper.time()
             log.append(op)
             return out
@@ -223,7 +232,11 @@ def make_backend(spec, fake, dt_source, log):
 
         def busy_trial_ids(self):
             op = dict(kind="busy")
-            # no outside time is charged by this method (it does not call _advance_by_outside_time)
+            # real time passes before this call as before any other; the method itself charges nothing and
+            # sets no exit mark (it does not call _advance_by_outside_time / mark_exit): the stretch is
+            # charged, once, by the next call that does
+            fake.spend(dt_source("busy"))
+            op["real"] = fake.now - fake.start
             try:
                 out = super().busy_trial_ids()
             except Exception as e:
@@ -436,11 +449,20 @@ def check_log(spec, log):
     if spec["fixed_seed"] is not None:
         fixed = spec["fixed_seed"]
     prev_clock = 0.0
+    outside_total = 0.0     # simulated time charged for real time spent outside the backend, whole sequence
     ncfg = spec["nx"] * spec["ny"]
     for i, op in enumerate(log):
         if "err" in op:
             break
         k, c = op["kind"], op["clock"]
+        # ---- every stretch of real time is charged at most once: what the calls so far charged as outside
+        # time cannot exceed the real time that has elapsed on the (fake) real-time clock
+        outside_total += c - prev_clock - (spec["sleep"] if k == "sleep" else
+                                           (d["stop"] + NUDGE + d["stopc"] + NUDGE) if k in ("pause", "stop") else 0.0)
+        if "real" in op and outside_total > op["real"] * (1 + 1e-9) + 1e-9:
+            viol.append(("after op %d (%s) the calls have charged %r of simulated time for time spent outside the backend, "
+                         "but only %r of real time has elapsed" % (i, k, outside_total, op["real"]),
+                         dict(defect="outside_time_charged_twice", op=k)))
         # ---- clock: never backwards, every charge exactly once
         if c < prev_clock:
             viol.append(("simulated clock went backwards at op %d (%s): %r -> %r" % (i, k, prev_clock, c),
